@@ -585,7 +585,7 @@ func cmdSelftestDeterminism(args []string) int {
 					h := ""
 					for _, l := range strings.Split(string(out), "\n") {
 						if i := strings.Index(l, "loghash="); i >= 0 {
-							h = l[i:]
+							h = strings.Fields(l[i:])[0]
 						}
 					}
 					hashes = append(hashes, h)
